@@ -47,6 +47,14 @@ def cases(draw, path):
                 pkw.append([n, draw(vals)])
         if sig['varkw'] and draw(st.integers(0, 2)) == 0:
             pkw.append(['w', draw(vals)])
+    # rounding tolerance: equivalent spellings must still share a key. Defaults that are not invariant under the rounding are
+    # replaced by their rounded value in the main pass (open finding D19: klepto rounds what the caller passed but mixes in
+    # defaults unrounded, so f(1) and f(1, <default>) get different keys); the probe case keeps such a default
+    tol = draw(st.sampled_from([None, None, None, 0, 1]))
+    deep = draw(st.booleans()) if tol is not None else False
+    if tol is not None:
+        sig = stabilise_defaults(sig, tol)
+        pkw = [[n, stable_spec(v, tol)] for n, v in pkw]
     rest = rest_sig(sig, nfix, pkw)
     b = draw(S.bindings(rest, vals))
     others = draw(st.lists(S.bindings(rest, vals), max_size=3))
@@ -58,7 +66,33 @@ def cases(draw, path):
         module = draw(st.sampled_from(['std', 'safe']))
     return {'sig': sig, 'kind': kind, 'nfix': nfix, 'fixed': [draw(vals) for _ in range(nfix)], 'pkw': pkw, 'binding': b, 'others': others,
             'form1': draw(st.integers(0, 255)), 'form2': draw(st.integers(0, 255)), 'keymap': km, 'path': path,
-            'module': module, 'algo': draw(st.sampled_from(['inf', 'lru', 'lfu', 'mru', 'rr'] + H.DISPATCHED))}
+            'module': module, 'algo': draw(st.sampled_from(['inf', 'lru', 'lfu', 'mru', 'rr'] + H.DISPATCHED)), 'tol': tol, 'deep': deep}
+
+
+def stable_spec(spec, tol):
+    t = spec[0]
+    if t == 'f':
+        return ['f', repr(round(float(spec[1]), tol))]
+    if t in 'tlSF':
+        return [t, [stable_spec(x, tol) for x in spec[1]]]
+    if t == 'd':
+        return ['d', [[k, stable_spec(v, tol)] for k, v in spec[1]]]
+    return spec
+
+
+def stabilise_defaults(sig, tol):
+    s2 = dict(sig)
+    s2['opt'] = [[n, stable_spec(d, tol)] for n, d in sig['opt']]
+    s2['kwopt'] = [[n, stable_spec(d, tol)] for n, d in sig['kwopt']]
+    return s2
+
+
+def unstable_default(case):
+    tol = case.get('tol')
+    if tol is None:
+        return False
+    specs = [d for _, d in case['sig']['opt']] + [d for _, d in case['sig']['kwopt']] + [v for _, v in case.get('pkw', [])]
+    return any(stable_spec(d, tol) != d for d in specs)
 
 
 def rest_sig(sig, nfix, pkw):
@@ -109,9 +143,13 @@ def run_case(case):
     km = H.make_keymap(case['keymap'])
     path = case['path']
     key1 = key2 = key3 = None
+    tkw = {}
+    if case.get('tol') is not None and path != '_keygen':
+        tkw = {'tol': case['tol'], 'deep': bool(case.get('deep'))}
+        classes.append('tol:%r' % case['tol'])
     try:
         if path == 'fkey' or path == 'call':
-            dec = H.decorator_class(case['module'], case['algo'])(keymap=km)
+            dec = H.decorator_class(case['module'], case['algo'])(keymap=km, **tkw)
             f = dec(target)
             if path == 'fkey':
                 for oa, ok in others[:2]:
@@ -122,7 +160,7 @@ def run_case(case):
                 key2 = f.key(*a2, **k2)
                 # a fresh twin function with no history must produce the same key (keys do not depend on what was keyed before)
                 target2 = build_target(case, [])[0]
-                key3 = H.decorator_class(case['module'], case['algo'])(keymap=km)(target2).key(*a2, **k2)
+                key3 = H.decorator_class(case['module'], case['algo'])(keymap=km, **tkw)(target2).key(*a2, **k2)
             else:
                 for oa, ok in others[:2]:
                     f(*oa, **ok)
@@ -145,14 +183,14 @@ def run_case(case):
                         a1, k1, a2, k2, n2, info, f.key(*a1, **k1), f.key(*a2, **k2))))
                 classes.append('call_usable:%s' % usable)
         elif path == 'keygen':
-            kg = klepto.keygen(keymap=km)(target)
+            kg = klepto.keygen(keymap=km, **tkw)(target)
             for oa, ok in others[:2]:
                 kg(*oa, **ok)
             key1 = kg(*a1, **k1)
             for oa, ok in others[2:]:
                 kg(*oa, **ok)
             key2 = kg(*a2, **k2)
-            key3 = klepto.keygen(keymap=km)(build_target(case, [])[0])(*a2, **k2)
+            key3 = klepto.keygen(keymap=km, **tkw)(build_target(case, [])[0])(*a2, **k2)
         else:
             for oa, ok in others[:2]:
                 klepto._keygen(target, (), *oa, **ok)
@@ -205,6 +243,13 @@ def shape(sig):
     return (len(sig['req']), len(sig['opt']), bool(sig['varargs']), len(sig['kwreq']), len(sig['kwopt']), bool(sig['varkw']))
 
 
-REQUIRED_CLASSES = ['differs_beyond_kw_order', 'kw_order_differs', 'kind:method', 'kind:partial', 'path:call', 'path:keygen', 'path:_keygen', 'path:fkey']
+REQUIRED_CLASSES = ['tol:0', 'tol:1', 'differs_beyond_kw_order', 'kw_order_differs', 'kind:method', 'kind:partial', 'path:call', 'path:keygen', 'path:_keygen', 'path:fkey']
 
-TRIGGERS = {}
+EXCLUDED = {'float defaults that change under the rounding tolerance (finding D19, probed)': 'replaced by their rounded value'}
+
+
+def _t_unstable_default(case, discr):
+    return unstable_default(case)
+
+
+TRIGGERS = {'tol_unstable_default': _t_unstable_default}
